@@ -93,13 +93,35 @@ func (e *episode) knownMiner() ([]byte, uint64, []byte, byte, bool) {
 func genEpisode(r *hx.Rng, ip *interp, run func(string) string, n int, st *genStats) {
 	e := &episode{r: r, ip: ip, run: run, st: st}
 	h0 := uint64(r.Pick(12, 100, 100, 1000, 35999, 36000, 5000000))
+	// fork schedule of the session: mostly dev; a share under the mainnet / robin schedules beyond their last proposal
+	switch r.Intn(7) {
+	case 0:
+		run("config mainnet")
+		h0 = 69329000 + uint64(r.Intn(1000000))
+		st.inc("config-mainnet")
+	case 1:
+		run("config robin")
+		h0 = 84150000 + uint64(r.Intn(1000000))
+		st.inc("config-robin")
+	default:
+		run("config dev")
+	}
 	run(fmt.Sprintf("reset %d", h0))
 	// universe
 	nid := 3 + r.Intn(3)
 	for i := 0; i < nid; i++ {
-		l := r.Pick(1, 2, 8, 20, 32, 32, 33)
+		l := r.Pick(1, 2, 8, 20, 31, 32, 32, 33)
 		b := r.Bytes(l)
 		b[0] |= 1 // not all-zero
+		if l > 1 && r.Chance(1, 5) {
+			b[0] = 0 // leading zero byte (big-endian encodings, groupsig.ID normalisation): still a distinct key
+			b[l-1] |= 1
+			st.inc("id-leading-zero")
+		}
+		if l > 1 && r.Chance(1, 8) {
+			b[l-1] = 0 // trailing zero byte
+			st.inc("id-trailing-zero")
+		}
 		e.ids = append(e.ids, b)
 	}
 	search := st.m["searcher"] > 0 // searcher: empty initial registry, real-size balances, well-formed accounts
@@ -117,6 +139,15 @@ func genEpisode(r *hx.Rng, ip *interp, run func(string) string, n int, st *genSt
 	for i := 0; i < na; i++ {
 		b := r.Bytes(20)
 		b[0] |= 0x80 // never looks like JSON, never collides with short accounts' addresses
+		if r.Chance(1, 6) {
+			b[0] = 0 // address with a leading zero byte
+			b[1] |= 0x80
+			st.inc("account-leading-zero")
+		}
+		if r.Chance(1, 8) {
+			b[19] = 0 // trailing zero byte (left-aligned BytesToAddress padding looks the same)
+			st.inc("account-trailing-zero")
+		}
 		e.accts = append(e.accts, b)
 	}
 	e.srcs = append(e.srcs, e.accts...)
@@ -298,6 +329,10 @@ func genEpisode(r *hx.Rng, ip *interp, run func(string) string, n int, st *genSt
 			default:
 				am = strconv.FormatUint(uint64(r.Intn(int(stake%100000)+2)), 10)
 			}
+			if r.Chance(1, 12) {
+				am = "000" + am // ParseUint accepts leading zeros
+				st.inc("refund-amount-leading-zeros")
+			}
 			run(fmt.Sprintf("refund %s %s %s", h(src), h(id), am))
 		case k < 82:
 			id, _, ac, _, ok := e.knownMiner()
@@ -336,7 +371,10 @@ func genEpisode(r *hx.Rng, ip *interp, run func(string) string, n int, st *genSt
 					st.inc("abort-then-topup")
 				}
 			}
-		case k < 91 && !search:
+		case k < 90:
+			run("rewind") // discarded block execution (process-local history): only the key cache may remember it
+			st.inc("rewind")
+		case k < 92 && !search:
 			// stake opcodes executed by a contract that is (or is not) some miner's account
 			_, stake, ac, typ, ok := e.knownMiner()
 			kc := ac
@@ -397,6 +435,18 @@ func genEpisode(r *hx.Rng, ip *interp, run func(string) string, n int, st *genSt
 				}
 			} else if r.Chance(1, 10) {
 				next = ip.w.height + uint64(1+r.Intn(400))
+			} else if id, _, _, _, ok := e.knownMiner(); ok && r.Chance(1, 4) {
+				// boundary of eligibility: land one before / on / one after a miner's apply height
+				if mr := service.MinerManagerImpl.GetMiner(id, ip.w.adb); mr != nil {
+					t := mr.ApplyHeight + uint64(r.Intn(3))
+					if t > 0 {
+						t--
+					}
+					if t > ip.w.height && t < 1<<40 {
+						next = t
+						st.inc("jump-to-apply-height")
+					}
+				}
 			}
 			run(fmt.Sprintf("endblock %d", next))
 		}
